@@ -13,7 +13,7 @@
 import AHP.Model.Index
 import Driver.C06
 namespace Driver.C07
-open AHP AHP.Sexp
+open AHP AHP.G3 AHP.Sexp
 
 structure St where
   idx : Idx
